@@ -315,15 +315,89 @@ def check_operators(run, rng, engine: str, case: Any) -> None:
             ch.value += '?'
     if kv_snapshot(t) != st:
         run.violation('mutating a Keyvalues copy changed the source', case=case, engine=engine, key='kv-copy-aliases')
-    # vector arithmetic leaves operands alone
-    v, w = Vec(1, 2, 3), Vec(4, 5, 6)
-    ang, mat = Angle(10, 20, 30), Matrix.from_yaw(45)
-    before = (tuple(v), tuple(w), tuple(ang), [mat[i, j] for i in range(3) for j in range(3)])
-    _ = (v + w, v - w, v * 2, 2 * v, v / 2, -v, v @ ang, v @ mat, ang @ mat, mat @ ang, ang * 2, v.cross(w), v.norm(), mat.transpose(), mat.inverse())
-    after = (tuple(v), tuple(w), tuple(ang), [mat[i, j] for i in range(3) for j in range(3)])
-    if before != after:
-        run.violation('Vec/Angle/Matrix arithmetic changed an operand', witness={'before': before, 'after': after}, case=case,
-                      engine=engine, key='math-operator-mutates')
+    # vector arithmetic leaves operands alone: every binary operator over every pair of operand kinds (mutable, frozen,
+    # tuple, scalar), both orders, with random and special values; then the unary operators and the value-returning methods
+    import operator as _op
+    from srctools.math import FrozenVec, FrozenAngle, FrozenMatrix
+
+    def rvals():
+        return [rng.choice((0.0, -0.0, 1.0, -1.0, 90.0, rng.uniform(-500, 500), float(rng.randint(-9, 9)))) for _ in range(3)]
+
+    def msnap(o):
+        if isinstance(o, (Vec, FrozenVec)):
+            return ('V', o.x, o.y, o.z)
+        if isinstance(o, (Angle, FrozenAngle)):
+            return ('A', o.pitch, o.yaw, o.roll)
+        if isinstance(o, (Matrix, FrozenMatrix)):
+            return ('M', [o[i, j] for i in range(3) for j in range(3)])
+        return ('T', o)
+
+    def operands():
+        a3, b3, c3 = rvals(), rvals(), rvals()
+        return [Vec(*a3), FrozenVec(*a3), Angle(*b3), FrozenAngle(*b3), Matrix.from_angle(*c3), FrozenMatrix.from_angle(*c3),
+                tuple(a3), rng.choice((2, 2.5, -1, 0, 0.0, 1))]
+
+    binops = [('+', _op.add), ('-', _op.sub), ('*', _op.mul), ('/', _op.truediv), ('//', _op.floordiv), ('%', _op.mod), ('divmod', divmod),
+              ('@', _op.matmul), ('==', _op.eq), ('!=', _op.ne), ('<', _op.lt)]
+    lefts, rights = operands(), operands()
+    for lo in lefts:
+        for ro in rights:
+            for name, fn in binops:
+                sl, sr = msnap(lo), msnap(ro)
+                try:
+                    res = fn(lo, ro)
+                except Exception:   # the pair does not support this operator (or divides by zero): nothing to judge
+                    continue
+                run.count('math_operator_applications')
+                if msnap(lo) != sl or msnap(ro) != sr:
+                    run.violation(f'{type(lo).__name__} {name} {type(ro).__name__} changed an operand',
+                                  witness={'left': [sl, msnap(lo)], 'right': [sr, msnap(ro)]}, case=case, engine=engine, key='math-operator-mutates')
+                    return
+                # a mutable result is a value of its own: working on it in place leaves the operands as they were
+                for r1 in (res if isinstance(res, tuple) else (res,)):
+                    if isinstance(r1, Vec):
+                        r1 += Vec(1, 2, 3)
+                        r1 @= Matrix.from_yaw(30)
+                    elif isinstance(r1, Angle):
+                        r1 *= 3
+                        r1.yaw += 10
+                    elif isinstance(r1, Matrix):
+                        r1 @= Matrix.from_pitch(40)
+                        r1[0, 0] = 5.0
+                if msnap(lo) != sl or msnap(ro) != sr:
+                    run.violation(f'editing the result of {type(lo).__name__} {name} {type(ro).__name__} in place changed an operand',
+                                  case=case, engine=engine, key='math-operator-aliases')
+                    return
+    unary = [('-x', _op.neg), ('+x', _op.pos), ('abs', abs), ('round', round), ('round2', lambda x: round(x, 2)), ('bool', bool), ('hash', hash),
+             ('iter', lambda x: list(x)), ('copy', lambda x: x.copy()), ('freeze', lambda x: x.freeze()), ('thaw', lambda x: x.thaw()),
+             ('norm', lambda x: x.norm()), ('mag', lambda x: x.mag()), ('cross', lambda x: x.cross(Vec(1, 0, 0))), ('dot', lambda x: x.dot(Vec(1, 2, 3))),
+             ('to_angle', lambda x: x.to_angle()), ('transpose', lambda x: x.transpose()), ('inverse', lambda x: x.inverse()),
+             ('forward', lambda x: x.forward()), ('left', lambda x: x.left()), ('up', lambda x: x.up()), ('str', str), ('repr', repr),
+             ('join', lambda x: x.join(' ')), ('as_tuple', lambda x: x.as_tuple()), ('len_sq', lambda x: x.mag_sq()),
+             ('axis', lambda x: x.axis()), ('other_axes', lambda x: x.other_axes('x')), ('with_axes', lambda x: x.with_axes('x', 5.0)),
+             ('lerp', lambda x: x.lerp(0.5, 0.0, 1.0, Vec(0, 0, 0), Vec(1, 1, 1))), ('norm_mask', lambda x: x.norm_mask(Vec(0, 0, 1))),
+             ('bbox', lambda x: Vec.bbox(x, Vec(1, 1, 1))), ('iter_line', lambda x: list(x.iter_line(Vec(3, 0, 0), 1))[:3])]
+    for o in lefts[:6]:
+        for name, fn in unary:
+            so = msnap(o)
+            with warnings.catch_warnings():
+                warnings.simplefilter('ignore')
+                try:
+                    res = fn(o)
+                except Exception:   # not applicable to this kind of object / these arguments: nothing to judge
+                    continue
+            run.count('math_operator_applications')
+            if isinstance(res, (Vec, Angle, Matrix)) and res is not o:
+                if isinstance(res, Vec):
+                    res += Vec(7, 7, 7)
+                elif isinstance(res, Angle):
+                    res.pitch += 33
+                else:
+                    res[1, 1] = 9.0
+            if msnap(o) != so:
+                run.violation(f'{name} of a {type(o).__name__} changed it (or its result shares state with it)', witness={'before': so, 'after': msnap(o)},
+                              case=case, engine=engine, key='math-operator-mutates')
+                return
 
 
 def one_case(run, seed: int, i: int, engine: str = 'copy') -> None:
@@ -385,7 +459,7 @@ def main(run, shard=(0, 1)) -> None:
             one_case(run, run.seed, i)
     probe.report(run)
     probe.check_reached(run)
-    run.require('copies', 'mutations_applied', 'operator_checks', 'displacement_copies')
+    run.require('copies', 'mutations_applied', 'operator_checks', 'displacement_copies', 'math_operator_applications')
 
 
 def replay(run, data) -> None:
